@@ -42,6 +42,9 @@ const PROPS: &[&str] = &[
 fn main() {
     let args: Vec<String> = std::env::args().collect();
     view::install_quiet_panic_hook();
+    if let Ok(f) = std::env::var("LEXMC_HANG_FILE") {
+        view::start_watchdog(&f);
+    }
     let cmd = args.get(1).map(String::as_str).unwrap_or("");
     if let Some(k) = arg_value(&args, "--known") {
         known::load(&k);
